@@ -222,6 +222,14 @@ def run(ctx):
         ctx.violation("source-tie", {"what": "the translation of Scanner.is_last from csvpath/scanning/scanner.py is no longer proved equal to the model: theorem is_last_src_eq (C13_is_last_source) "
                                              "does not check against the source of this tree; the generated cases of this run found no input on which the property fails",
                                      "theorem": "is_last_src_eq (C13_is_last_source)", "tie": tie}, no_input=True)
+    # the translator tie for the per-record step: CsvPath._consider_line (with raise_match_count_if, stop(), LineMonitor.is_last_line_and_blank) as
+    # written in the source of the tree under test, regenerated and (when the text differs from the checked-in Run/RunSrc.v) re-proved equal to the model
+    import srctie
+    rtie = srctie.check(ctx, "runstep")
+    if rtie["status"] in ("untranslatable", "unproved") and not ctx.violations:
+        ctx.violation("source-tie", {"what": "the translation of CsvPath._consider_line from csvpath/csvpath.py is no longer proved equal to the run-loop model's per-record step: theorem "
+                                             "consider_line_src_eq (C13_step_source) does not check against the source of this tree; the generated cases of this run found no input on which the property fails",
+                                     "theorem": "consider_line_src_eq (C13_step_source)", "tie": rtie}, no_input=True)
     ctx.coverage.update({
         "evaluations": len(jobs), "distinct_nontrivial": len(fired),
         "rule": "enumeration: a control component (12 forms of conditional/unconditional stop, skip, advance(n), last-stop) at every position among 1-4 pushing components, firing line 0..6, "
@@ -233,6 +241,7 @@ def run(ctx):
         "traces_validated_against_impl": len(jobs) - len(clean_bad),
         "correspondence": f"clean model == implementation on {len(jobs) - len(clean_bad)}/{len(jobs)}; with switch skip_last_leaks on: {len(jobs) - len(quirk_bad)}/{len(jobs)}",
     })
+    ctx.coverage["source_tie_run_step"] = {"status": rtie["status"], "detail": rtie["detail"][:400]}
     ctx.coverage["source_tie"] = {"status": tie["status"], "detail": tie["detail"][:400]}
 
 
